@@ -19,7 +19,11 @@ type c13Case struct {
 	Text2 string   `json:"text2,omitempty"`
 }
 
-var c13Tokens = []string{"'", "\"", "\\", "%", "%%", "%v", "%d", "%s", "{", "}", "{{", "}}", "{{x}}", "\n", "\t", "`", "$", "$node", "$message", "$result", "#", ":", ",", "[", "\\n", "\\\"", "é", "日", "😀", "<", ">", "&", "|"}
+var c13Tokens = []string{"'", "\"", "\\", "%", "%%", "%v", "%d", "%s", "{", "}", "{{", "}}", "{{x}}", "\n", "\t", "`", "$", "$node", "$message", "$result", "#", ":", ",", "[", "\\n", "\\\"", "é", "日", "😀", "<", ">", "&", "|",
+	// one representative per class of code point that escaping helpers tend to single out: C0 controls other than \n/\t, DEL,
+	// C1 control, no-break and zero-width spaces, bidi override, line separator, BOM, replacement character, a BMP
+	// noncharacter, and non-printable code points above U+FFFF (tag character, private use, format control, last code point)
+	"\r", "\x01", "\x7f", "\u0085", "\u00a0", "\u200b", "\u202e", "\u2028", "\ufeff", "\ufffd", "\uffff", "\U000E0067", "\U000F0001", "\U0001D173", "\U0010FFFF"}
 var c13Slots = []string{"profile", "validation", "message", "message+placeholder", "message+2placeholders", "in", "containsAll", "containsSome", "pattern-free-message-absent-value", "message+same-placeholder-twice", "message+same-placeholder-3-spellings", "in-under-nested"}
 
 const c13Base = "Abc def"
@@ -98,7 +102,7 @@ func c13ExpectedMessage(msg string, node *GNode) string {
 func init() {
 	Register(Meta{
 		ID: "C13", Level: "exploration",
-		Rule:        "deviation-bounded: slots = profile name, validation name, message, message followed by a placeholder, message between two placeholders (one referring to an absent property), message before a placeholder of an absent property, a value of an `in` / `containsAll` / `containsSome` list; token alphabet of 33 special tokens (quotes, backslash, percent forms, braces, a non-placeholder {{x}}, newline, tab, back-tick, $-variables of the embedding language, #, :, comma, bracket, the two-character sequences \\n and \\\", non-ASCII, non-BMP, <, >, &, |); a deviation is one token inserted at the start, middle or end of a plain base string. Bound 1 = every (slot, token, position); bound 2 (thorough) = every ordered pair of tokens in one slot and every pair across two slots. The YAML is emitted with double-quoted scalars and parsed back with yaml.v3 to confirm the intended string. Oracle: CompileProfile succeeds; profileName and sourceShapeName verbatim; resultMessage equals the reference rendering (placeholders -> value or null, double quote -> single quote, everything else byte-identical); the set of reported nodes equals the one obtained with the plain base string; a node whose value equals the special list value passes `in`/contains and one that differs fails. Non-trivial = every case (all contain a special token); distinct by profile text.",
+		Rule:        "deviation-bounded: slots = profile name, validation name, message, message followed by a placeholder, message between two placeholders (one referring to an absent property), message before a placeholder of an absent property, a value of an `in` / `containsAll` / `containsSome` list; token alphabet of 48 special tokens (quotes, backslash, percent forms, braces, a non-placeholder {{x}}, newline, tab, back-tick, $-variables of the embedding language, #, :, comma, bracket, the two-character sequences \\n and \\\", non-ASCII, non-BMP, <, >, &, |, and one representative per class of unusual code point: CR, U+0001, DEL, a C1 control, no-break/zero-width space, bidi override, U+2028, BOM, U+FFFD, the noncharacter U+FFFF, and four non-printable code points above U+FFFF); a deviation is one token inserted at the start, middle or end of a plain base string. Bound 1 = every (slot, token, position); bound 2 (thorough) = every ordered pair of tokens in one slot and every pair across two slots. The YAML is emitted with double-quoted scalars and parsed back with yaml.v3 to confirm the intended string. Oracle: CompileProfile succeeds; profileName and sourceShapeName verbatim; resultMessage equals the reference rendering (placeholders -> value or null, double quote -> single quote, everything else byte-identical); the set of reported nodes equals the one obtained with the plain base string; a node whose value equals the special list value passes `in`/contains and one that differs fails. Non-trivial = every case (all contain a special token); distinct by profile text.",
 		Assumptions: []string{"placeholders refer to single-valued properties (multi-valued rendering is not defined by the statement)"},
 	}, c13Gen, c13Run)
 }
